@@ -610,13 +610,16 @@ static void fam_mixed() {
   }
 }
 
+// (nlohmann compares an unsigned with a signed number by casting, so 2^64-1 "==" -1: decide the range on the stored type)
+static bool int_in_range(const Json &v) { if (v.is_number_unsigned()) return v.get<uint64_t>() <= (uint64_t)INT_MAX; int64_t x = v.get<int64_t>(); return x >= INT_MIN && x <= INT_MAX; }
 // JSON-RPC shaped envelopes with hostile field types, through every proto
 static void fam_envelope() {
   const Json ABSENT = Json::binary({});     // marker
   auto big = [](const char *t) { return Json::parse(t); };
   std::vector<Json> ver = {ABSENT, "2.0", "1.0", 2, nullptr};
   std::vector<Json> method = {ABSENT, "m", 1, nullptr, Json::array()};
-  std::vector<Json> id = {ABSENT, 1, "1", 1.5, big("2147483647"), big("2147483648"), big("9223372036854775808"), big("18446744073709551615"), big("-9223372036854775808"), -1, nullptr, Json::object(), true, big("1e300")};
+  std::vector<Json> id = {ABSENT, 1, "1", 1.5, big("2147483647"), big("2147483648"), big("9223372036854775808"), big("18446744073709551615"), big("-9223372036854775808"), -1, nullptr, Json::object(), true, big("1e300"),
+                          big("4294967297"), big("-2147483649"), big("9223372036854775807"), big("-4294967295")};   // 2^32+1 and -(2^32-1) truncate to the live id 1
   std::vector<Json> params = {ABSENT, 1, Json::array(), Json::object()};
   std::vector<Json> result = {ABSENT, nullptr, 1};
   Json c1 = Json::object(); c1["code"] = 1; Json c2 = Json::object(); c2["code"] = "x"; Json c3 = Json::object(); c3["code"] = big("4294967296"); Json c4 = Json::object(); c4["code"] = 1.5;
@@ -628,6 +631,7 @@ static void fam_envelope() {
     run_batch([&] {
       Port rx[NPROTO] = {Port(RAW), Port(HDR), Port(PKT)};
       // the same protos with one or both receive callbacks absent (Rpc::cleanup() leaves its borrowed proto with neither, and the transport may go on delivering)
+      Port refp[NPROTO] = {Port(RAW), Port(HDR), Port(PKT)};       // reference run of the same message with a non-integer id
       Port half[NPROTO][3] = {{Port(RAW, 0), Port(RAW, 1), Port(RAW, 2)}, {Port(HDR, 0), Port(HDR, 1), Port(HDR, 2)}, {Port(PKT, 0), Port(PKT, 1), Port(PKT, 2)}};
       for (size_t i = b0; i < total && i < b0 + B; i++) {
         if ((int)(i % (size_t)g_nparts) != g_part) continue;
@@ -650,13 +654,27 @@ static void fam_envelope() {
             else for (auto &m : pt.got) {
               if (m.kind == 0 && !(js.contains("method") && js["method"].is_string() && js["method"] == m.method && m.v == (js.contains("params") ? js["params"] : Json()))) { bad = true; add_viol(cls + "-request-callback-does-not-match-message", rep + " got=" + show(pt.got)); break; }
               // an id that is an integer within int range must reach the callback unchanged (other id shapes: not judged, the statement only asks for no exception)
-              if (js.contains("id") && js["id"].is_number_integer() && js["id"] >= INT_MIN && js["id"] <= INT_MAX && !(js["id"] == m.id)) { bad = true; add_viol(cls + "-callback-id-differs-from-message-id", rep + " got=" + show(pt.got)); break; }
+              if (js.contains("id") && js["id"].is_number_integer() && int_in_range(js["id"]) && js["id"].get<int64_t>() != (int64_t)m.id) { bad = true; add_viol(cls + "-callback-id-differs-from-message-id", rep + " got=" + show(pt.got)); break; }
+              // an integer id OUTSIDE the int range names no request: it must never reach a callback as some in-range id other than 0 (0 = "no usable id")
+              if (js.contains("id") && js["id"].is_number_integer() && !int_in_range(js["id"]) && m.id != 0) { bad = true; add_viol(cls + "-out-of-range-id-delivered-as-a-truncated-id", rep + " got=" + show(pt.got)); break; }
               if (m.kind == 1 && js.contains("method")) { bad = true; add_viol(cls + "-response-callback-for-a-request-message", rep + " got=" + show(pt.got)); break; }
               if (m.kind == 1 && js.contains("result") && !(m.errcode == 0 && m.v == js["result"])) { bad = true; add_viol(cls + "-result-callback-does-not-match-message", rep + " got=" + show(pt.got)); break; }
               if (m.kind == 1 && !js.contains("result") && !(js.contains("error") && m.v.is_null())) { bad = true; add_viol(cls + "-error-callback-does-not-match-message", rep + " got=" + show(pt.got)); break; }
               // (an error code outside int range is narrowed by util::json::Get(int): outside this property, only noted)
               if (m.kind == 1 && !js.contains("result") && js["error"].is_object() && js["error"].contains("code") && js["error"]["code"] != m.errcode) add_outcome("envelope: error code outside int range reaches the callback narrowed");
               if (!(js.contains("jsonrpc") && js["jsonrpc"] == "2.0")) { bad = true; add_viol(cls + "-callback-for-wrong-version", rep + " got=" + show(pt.got)); break; }
+            }
+            // ... and it is treated exactly like a non-integer id of the same message: same callbacks (none for a result), same verdict
+            if (!bad && js.contains("id") && js["id"].is_number_integer() && !int_in_range(js["id"])) {
+              Json js2 = js; js2["id"] = 1.5; Json top2 = batch ? Json::array({js2, 1, Json::array({js2})}) : js2;
+              Port &rp = refp[k]; rp.sent.clear(); rp.p->sendJson(top2); CallRes rr;
+              std::vector<Msg> mine = pt.got;
+              if (hostile_call(rp, cls, rp.sent, rr)) {
+                if ((rr.r == (ssize_t)rp.sent.size()) != (cr.r == (ssize_t)pt.sent.size()) || rp.got.size() != mine.size() || !std::equal(mine.begin(), mine.end(), rp.got.begin())) { bad = true;
+                  add_viol(cls + "-out-of-range-id-not-treated-like-a-non-integer-id", rep + " got=" + show(mine) + " with-id-1.5=" + show(rp.got)); }
+                else if (js.contains("result") && !js.contains("method") && !mine.empty()) { bad = true; add_viol(cls + "-response-callback-for-a-result-with-an-out-of-range-id", rep + " got=" + show(mine)); }
+                else add_outcome(fmt("envelope %s out-of-range integer id: treated like a non-integer id (callbacks=%zu)", PN[k], mine.size()));
+              }
             }
             if (!bad) add_outcome(fmt("envelope %s callbacks=%zu", PN[k], pt.got.size()));
             // partially wired protos: no exception, the same return value, and exactly the callbacks of the wired kind
